@@ -490,3 +490,64 @@ func suiteTeletext(R *runner, r *rng) {
 		R.add(o)
 	}
 }
+
+// transport streams whose packet/table layer is valid but whose PES payloads, data units and teletext
+// packets are malformed (C08)
+func hostileTS(r *rng) ([]byte, string) {
+	var out bytes.Buffer
+	m := astits.NewMuxer(context.Background(), &out)
+	pid := uint16(256)
+	desc := &astits.Descriptor{Tag: astits.DescriptorTagTeletext, Length: 5, Teletext: &astits.DescriptorTeletext{Items: []*astits.DescriptorTeletextItem{{Language: []byte("eng"), Type: 2, Magazine: 1, Page: 0}}}}
+	if r.chance(1, 6) {
+		desc = &astits.Descriptor{Tag: astits.DescriptorTagVBITeletext, Length: 5, VBITeletext: desc.Teletext}
+	}
+	m.AddElementaryStream(astits.PMTElementaryStream{ElementaryPID: pid, StreamType: astits.StreamTypePrivateData, ElementaryStreamDescriptors: []*astits.Descriptor{desc}})
+	m.SetPCRPID(pid)
+	m.WriteTables()
+	var desc2 []string
+	cut := func(u []byte) []byte {
+		// shorten the unit and make the length byte agree (or not)
+		n := 2 + r.intn(len(u)-1)
+		v := append([]byte{}, u[:n]...)
+		if r.chance(2, 3) && n >= 2 {
+			v[1] = byte(n - 2)
+		}
+		return v
+	}
+	for i := 0; i < 1+r.intn(5); i++ {
+		var data []byte
+		kind := r.intn(9)
+		desc2 = append(desc2, fmt.Sprint(kind))
+		hdr := headerPacket(1, 0, ttxHeaderOpts{subtitle: true, serial: r.chance(1, 2)})
+		row := rowPacket(1, 1+r.intn(24), []byte("\x0bhello\x0a"))
+		switch kind {
+		case 0:
+			data = []byte{0x10}
+		case 1:
+			data = []byte{0x10, 0x03}
+		case 2:
+			data = append([]byte{0x10}, cut(hdr)...)
+		case 3:
+			data = append(append([]byte{0x10}, hdr...), cut(row)...)
+		case 4:
+			data = append(append([]byte{0x10}, hdr...), cut(dataUnit(0x03, 1, 28, []byte{ham84(0)}))...)
+		case 5:
+			data = append(append([]byte{0x10}, hdr...), cut(dataUnit(0x03, 1, 29, []byte{ham84(0)}))...)
+		case 6:
+			data = append(append([]byte{0x10}, hdr...), cut(dataUnit(0x03, 8, 30, []byte{ham84(2)}))...)
+		case 7:
+			data = append(append(append([]byte{0x10}, hdr...), row...), 0x03, 0xff, 0x00)
+		default:
+			data = append(append([]byte{byte(r.intn(256))}, hdr...), row...)
+			for k := 0; k < 3; k++ {
+				data[1+r.intn(len(data)-1)] = byte(r.intn(256))
+			}
+		}
+		hdrPES := &astits.PESHeader{StreamID: astits.StreamIDPrivateStream1, OptionalHeader: &astits.PESOptionalHeader{MarkerBits: 2, PTSDTSIndicator: astits.PTSDTSIndicatorOnlyPTS, PTS: &astits.ClockReference{Base: int64(90000 * (i + 1))}}}
+		if r.chance(1, 8) {
+			hdrPES.OptionalHeader = &astits.PESOptionalHeader{MarkerBits: 2} // no PTS
+		}
+		safely(func() { m.WriteData(&astits.MuxerData{PID: pid, PES: &astits.PESData{Header: hdrPES, Data: data}}) })
+	}
+	return out.Bytes(), strings.Join(desc2, ",")
+}
